@@ -46,6 +46,15 @@ PROP = dict(
                    "value:len:112", "value:len:256", "value:len:257"],
     jobs=[
         dict(name="alias", pkg="c19", run="^TestC19_Alias$", shards=SHARDS, checks=(300, 3000), timeout=(900, 5400)),
+        # the same relation on the other code paths of the arithmetic: ADX disabled (the assembly jumps to the portable
+        # _mulGeneric / mulGenericE2 fallbacks, which must be alias-safe too), AVX-512 disabled (generic vector loops) and the
+        # purego build; fields, vectors, towers, points and the small-field extensions at reduced counts
+        dict(name="alias-noadx", pkg="c19", run="^TestC19_Alias$", shards=[x for x in SHARDS if x["name"].split("_")[0] in ("field", "tower", "point", "ext", "edwards")],
+             checks=(100, 1000), env={"GODEBUG": "cpu.adx=off"}, timeout=(900, 5400)),
+        dict(name="alias-noavx512", pkg="c19", run="^TestC19_Alias$", shards=[x for x in SHARDS if x["name"].split("_")[0] in ("vector", "ext")],
+             checks=(150, 1500), env={"GODEBUG": "cpu.avx512=off"}, timeout=(900, 5400)),
+        dict(name="alias-purego", pkg="c19", run="^TestC19_Alias$", shards=[x for x in SHARDS if x["name"].split("_")[0] in ("field", "vector", "tower", "ext")],
+             checks=(100, 1000), tags="purego", timeout=(900, 5400)),
         dict(name="table", pkg="c19", run="^TestC19_Table$", rapid=False),
         dict(name="regress", pkg="c19", run="^TestC19_Regress", rapid=False),
     ],
